@@ -4,7 +4,7 @@ CONSTANTS
   Versions <- VersionsQuick
   TypesC <- TypesA
   Depth = "extra"
-  FieldSet = "full"
+  FieldSet = "all"
   Entries <- EntriesUntrusted
   MaxOps = 2
   Heavy <- HeavyMid
